@@ -16,7 +16,7 @@ def genRaw : RawFacts :=
     sortedArg := C16.sortedArg, reversedArg := C16.reversedArg,
     constantFoldsLists := C16.constantFoldsLists, listSlice := C16.listSlice,
     natives := C18.natives, equalVia := C18.equalVia,
-    listAddAcceptsFrozen := C18.listAddAcceptsFrozen, frozenListEmbedsList := C18.frozenListEmbedsList,
+    listAddAcceptsFrozen := C18.listAddAcceptsFrozen, listAddFrozenClipsResult := C18.listAddFrozenClipsResult, frozenListEmbedsList := C18.frozenListEmbedsList,
     frozenListMethods := C18.frozenListMethods,
     sortedReverse := C16.sortedReverse, sortedSortFns := C16.sortedSortFns,
     opsCompare := C16.opsCompare, opsRestCalls := C16.opsRestCalls, opsRecheck := C16.opsRecheck }
